@@ -154,6 +154,8 @@ def expected(attr, assigned, before, entity):
             if "name" in assigned:
                 out["name"] = assigned["name"]
             return out
+        if type(assigned).__name__ == "ColorMap":
+            return canon(assigned)  # values and name
     if attr == "association" and isinstance(c, str):
         return c.upper()
     if attr == "image":
@@ -706,7 +708,9 @@ def describe(item) -> dict:
     target = resolve(ws, ent, cls, tname)
     out = {"cls": cls, "target": tname, "target_class": type(target).__name__, "storage": storage_tag(target), "attrs": []}
     for attr in domains.settable_attributes(target):
-        out["attrs"].append([attr, len(domains.values_for(target, attr)), defining_class(target, attr)])
+        vals = domains.values_for(target, attr)
+        numeric = all(v is None or (isinstance(v, (int, float, np.integer, np.floating)) and not isinstance(v, (bool, np.bool_))) for v in vals)
+        out["attrs"].append([attr, len(vals), defining_class(target, attr), numeric])
     out["observed"] = observable(target)
     ws.close()
     _collect_sometimes()
